@@ -86,6 +86,7 @@ pub fn run_proc(case: &ProcCase) -> ProcOutcome {
     PANIC_MSG.with(|m| *m.borrow_mut() = None);
     let mut recs: Vec<OpRec> = vec![];
     let ops = case.ops.clone();
+    ip::IN_LIB.store(true, SeqCst);
     let res = std::panic::catch_unwind(std::panic::AssertUnwindSafe(|| {
         ip::FAKE_FORK.store(true, SeqCst);
         let created = Popen::create(&["/nonexistent/verif-fake"], PopenConfig::default());
@@ -173,6 +174,7 @@ pub fn run_proc(case: &ProcCase) -> ProcOutcome {
             recs.push(OpRec { op: HOp::Drop, res: OpResult::Skipped("implicit"), log_from: from, log_to: sim.log.len(), t_before, t_after: sim.now, exit_at_before: sim.exit_at, exit_at_after: sim.exit_at, dead_after: sim.dead() });
         }
     }));
+    ip::IN_LIB.store(false, SeqCst);
     DETACHED.with(|d| d.set(false));
     ip::FAKE_FORK.store(false, SeqCst);
     ip::sim_uninstall();
